@@ -57,8 +57,8 @@ def check(ctx):
                 "every specific/recursive entry and every substitute is tested for membership; unknown ones are reported in the matching list (derives iff non-empty, "
                 "attributes iff non-empty, existing entry for the path extended); Ok iff nothing was reported")
     for lid, sym in syms.items():
-        init = N.local_term(lid)
-        init = init[2] if init[0] == "mut" else init
+        origin = N.defs[lid][0]
+        init = N.term(origin[1]) if origin[0] == "let" else ("opaque", "not-a-let")        # the initialiser of the `let` itself
         expect_term(ctx, "C11.3", "error-starts-empty", fn["sp"], init, "Default::default()", "the error starts with three empty lists")
     expect_fn(ctx, "C11.4", "substitute-target", "Substitute::path", "P0.path", "the reported target is the rule's target path", S)
     expect_fn(ctx, "C11.4", "substitute-iter", "TypeSubstitutes::iter", "HashMap::iter(P0.substitutes)", "all substitution rules are visited", S)
